@@ -2,6 +2,7 @@ package h
 
 import (
 	"context"
+	"encoding/json"
 	"errors"
 	"fmt"
 	"os"
@@ -139,7 +140,10 @@ var storeSeq int
 // as if left over from another model).
 func (e *Env) Setup(ctx context.Context, m *Model, tuples []Tuple) error {
 	storeSeq++
-	e.lastSetup = "model=" + jsonOf(m) + " tuples=" + jsonOf(normTuples(tuples))
+	if mb, err := json.Marshal(m); err == nil {
+		tb, _ := json.Marshal(normTuples(tuples))
+		e.lastSetup = "model=" + string(mb) + " tuples=" + string(tb)
+	}
 	if e.caseCache != nil {
 		e.caseCache.Stop()
 		e.caseCache = nil
